@@ -72,9 +72,11 @@ DetectorNext ==
      /\ out' = [volt |-> Voltage(scn[3], scn[2], scn[4]), gain |-> Gain(scn[5], scn[2], scn[6])]
      /\ stage' = 100 /\ UNCHANGED scn
 
+(* how the two numbers of $PnE are written: "4,0" / "4.0,0.0" / "4.00,0.00" / " 4, 0" are the same numbers *)
+NumStyles == {"plain", "decimal", "padded", "spaced"}
 ChannelNext ==
-  \/ Pick(0, Chans) \/ Pick(1, Labels) \/ Pick(2, Amps) \/ Pick(3, Ranges)
-  \/ /\ stage = 4
+  \/ Pick(0, Chans) \/ Pick(1, Labels) \/ Pick(2, Amps) \/ Pick(3, Ranges) \/ Pick(4, NumStyles)
+  \/ /\ stage = 5
      /\ out' = [label |-> Label(scn[2]), amp |-> AmpType(scn[3][1], scn[3][2]), rng |-> RangeOf(scn[4]), res |-> scn[4]]
      /\ stage' = 100 /\ UNCHANGED scn
 
